@@ -10,6 +10,7 @@ mod fsmodel;
 mod orchestrate;
 mod prng;
 mod scen;
+mod sched;
 pub mod seams;
 
 use framework::Tier;
